@@ -57,19 +57,19 @@ def gen():
     S = Steps()
     # ------------------------------------------------------------ read_character_property
     b = F.fn_body(t, "read_character_property", REL)
-    S.get("charprop loop", lambda: must(re.search(r"for\s+\(i,\s*line\)\s+in\s+reader\.lines\(\)\.enumerate\(\)", b), "no longer `for (i, line) in reader.lines().enumerate()`"), None)
-    S.get("charprop trim", lambda: must(re.search(r"let\s+line\s*=\s*line\?;\s*let\s+line\s*=\s*line\.trim\(\);", b), "`let line = line?; let line = line.trim();` not found"), None)
-    m = S.get("charprop skip rule", lambda: must(re.search(r"if\s+line\.is_empty\(\)\s*\|\|\s*line\.chars\(\)\.next\(\)\.unwrap\(\)\s*==\s*'(.)'\s*\|\|\s*line\.chars\(\)\.take\(2\)\.collect::<Vec<_>>\(\)\s*==\s*vec!\['(.)',\s*'(.)'\]\s*\{\s*continue;", b), "skip rule (empty / comment / range line) not recognised").groups(), ("#", "0", "x"))
+    S.get("charprop loop", lambda: must(re.search(r"for\s+\(i,\s*\w+\)\s+in\s+reader\.lines\(\)\.enumerate\(\)", b), "no longer `for (i, line) in reader.lines().enumerate()`"), None)
+    S.get("charprop trim", lambda: must(re.search(r"let\s+\w+\s*=\s*\w+\?;\s*let\s+\w+\s*=\s*\w+\.trim\(\);", b), "`let line = line?; let line = line.trim();` not found"), None)
+    m = S.get("charprop skip rule", lambda: must(re.search(r"if\s+\w+\.is_empty\(\)\s*\|\|\s*\w+\.chars\(\)\.next\(\)\.unwrap\(\)\s*==\s*'(.)'\s*\|\|\s*\w+\.chars\(\)\.take\(2\)\.collect::<Vec<_>>\(\)\s*==\s*vec!\['(.)',\s*'(.)'\]\s*\{\s*continue;", b), "skip rule (empty / comment / range line) not recognised").groups(), ("#", "0", "x"))
     out.append("(* read_character_property: skipped are empty lines, lines starting with this character, and lines starting with this prefix *)\n")
     out.append("Definition charprop_comment : N := %d%%N.\nDefinition charprop_range_prefix : list N := %s.\n" % (ord(m[0]), codes(m[1] + m[2])))
-    S.get("charprop tokeniser", lambda: must(re.search(r"let\s+cols:\s*Vec<_>\s*=\s*line\.split_whitespace\(\)\.collect\(\);", b), "columns are no longer line.split_whitespace()"), None)
+    S.get("charprop tokeniser", lambda: must(re.search(r"let\s+cols:\s*Vec<_>\s*=\s*\w+\.split_whitespace\(\)\.collect\(\);", b), "columns are no longer line.split_whitespace()"), None)
     m = S.get("charprop column count", lambda: must(re.search(r"if\s+cols\.len\(\)\s*(<=|<|>=|>)\s*([0-9]+)\s*\{\s*return\s+Err\(SudachiError::InvalidCharacterCategory\(\s*CharacterCategoryError::InvalidFormat\(i\)", b), "column-count check not recognised").groups(), ("<", "4"))
     out.append("(* error InvalidFormat(i) iff  cols.len() CMP N *)\nDefinition charprop_cols_guard : guard := mkG CastNone %s (OConst (%s)%%Z).\n" % (CMP[m[0]], m[1]))
     S.get("charprop order of checks", lambda: positions(b, [
         ("column count check", r"cols\.len\(\)"),
         ("category parse -> InvalidCategoryType(i, ..)", r"let\s+category_type:\s*CategoryType\s*=\s*match\s+cols\[0\]\.parse\(\)\s*\{\s*Ok\(t\)\s*=>\s*t,\s*Err\(_\)\s*=>\s*\{\s*return\s+Err\(SudachiError::InvalidCharacterCategory\(\s*CharacterCategoryError::InvalidCategoryType\(i,"),
-        ("duplicate check -> MultipleTypeDefinition(i, ..)", r"if\s+categories\.contains_key\(&category_type\)\s*\{\s*return\s+Err\(SudachiError::InvalidCharacterCategory\(\s*CharacterCategoryError::MultipleTypeDefinition\(i,"),
-        ("insert", r"categories\.insert\(\s*category_type,\s*CategoryInfo\s*\{"),
+        ("duplicate check -> MultipleTypeDefinition(i, ..)", r"if\s+\w+\.contains_key\(&category_type\)\s*\{\s*return\s+Err\(SudachiError::InvalidCharacterCategory\(\s*CharacterCategoryError::MultipleTypeDefinition\(i,"),
+        ("insert", r"\w+\.insert\(\s*category_type,\s*CategoryInfo\s*\{"),
     ], "read_character_property"), None)
 
     def info():
@@ -91,34 +91,34 @@ def gen():
     out.append("Definition charprop_length_ty : ity := %s.\n" % ITY[S.get("charprop length type", lenty, "u32")])
     # ------------------------------------------------------------ read_oov
     b = F.fn_body(t, "read_oov", REL)
-    S.get("unk loop", lambda: must(re.search(r"for\s+\(i,\s*line\)\s+in\s+reader\.lines\(\)\.enumerate\(\)", b), "no longer `for (i, line) in reader.lines().enumerate()`"), None)
-    S.get("unk trim", lambda: must(re.search(r"let\s+line\s*=\s*line\?;\s*let\s+line\s*=\s*line\.trim\(\);", b), "`let line = line?; let line = line.trim();` not found"), None)
-    m = S.get("unk skip rule", lambda: must(re.search(r"if\s+line\.is_empty\(\)\s*\|\|\s*line\.chars\(\)\.next\(\)\.unwrap\(\)\s*==\s*'(.)'\s*\{\s*continue;", b), "skip rule (empty / comment) not recognised").groups(), ("#",))
+    S.get("unk loop", lambda: must(re.search(r"for\s+\(i,\s*\w+\)\s+in\s+reader\.lines\(\)\.enumerate\(\)", b), "no longer `for (i, line) in reader.lines().enumerate()`"), None)
+    S.get("unk trim", lambda: must(re.search(r"let\s+\w+\s*=\s*\w+\?;\s*let\s+\w+\s*=\s*\w+\.trim\(\);", b), "`let line = line?; let line = line.trim();` not found"), None)
+    m = S.get("unk skip rule", lambda: must(re.search(r"if\s+\w+\.is_empty\(\)\s*\|\|\s*\w+\.chars\(\)\.next\(\)\.unwrap\(\)\s*==\s*'(.)'\s*\{\s*continue;", b), "skip rule (empty / comment) not recognised").groups(), ("#",))
     out.append("(* read_oov: skipped are empty lines and lines starting with this character *)\nDefinition unk_comment : N := %d%%N.\n" % ord(m[0]))
-    m = S.get("unk separator", lambda: must(re.search(r"let\s+cols:\s*Vec<_>\s*=\s*line\.split\('(.)'\)\.collect\(\);", b), "columns are no longer line.split(<char>)").groups(), (",",))
+    m = S.get("unk separator", lambda: must(re.search(r"let\s+cols:\s*Vec<_>\s*=\s*\w+\.split\('(.)'\)\.collect\(\);", b), "columns are no longer line.split(<char>)").groups(), (",",))
     out.append("Definition unk_separator : N := %d%%N.\n" % ord(m[0]))
     m = S.get("unk column count", lambda: must(re.search(r"if\s+cols\.len\(\)\s*(<=|<|>=|>)\s*([0-9]+)\s*\{\s*return\s+Err\(SudachiError::InvalidDataFormat\(i,", b), "column-count check not recognised").groups(), ("<", "10"))
     out.append("(* error InvalidDataFormat(i, line) iff  cols.len() CMP N *)\nDefinition unk_cols_guard : guard := mkG CastNone %s (OConst (%s)%%Z).\n" % (CMP[m[0]], m[1]))
     S.get("unk order of checks", lambda: positions(b, [
         ("column count check", r"cols\.len\(\)"),
         ("category parse", r"let\s+category_type:\s*CategoryType\s*=\s*cols\[0\]\.parse\(\)\?;"),
-        ("undefined-category check -> InvalidDataFormat(i, ..)", r"if\s+!categories\.contains_key\(&category_type\)\s*\{\s*return\s+Err\(SudachiError::InvalidDataFormat\(\s*i,"),
+        ("undefined-category check -> InvalidDataFormat(i, ..)", r"if\s+!\w+\.contains_key\(&category_type\)\s*\{\s*return\s+Err\(SudachiError::InvalidDataFormat\(\s*i,"),
         ("left_id", r"left_id:\s*cols\[1\]\.parse\(\)\?"),
         ("right_id", r"right_id:\s*cols\[2\]\.parse\(\)\?"),
         ("cost", r"cost:\s*cols\[3\]\.parse\(\)\?"),
         ("pos", r"pos_id:\s*grammar\.handle_user_pos\(&cols\[[0-9]+\.\.[0-9]+\],\s*user_pos\)\?"),
-        ("left_id range check", r"oov\.left_id\s+as\s+usize"),
-        ("right_id range check", r"oov\.right_id\s+as\s+usize"),
-        ("push", r"oov_list\.get_mut\(&category_type\)"),
+        ("left_id range check", r"\w+\.left_id\s+as\s+usize"),
+        ("right_id range check", r"\w+\.right_id\s+as\s+usize"),
+        ("push", r"\w+\.get_mut\(&category_type\)"),
     ], "read_oov"), None)
     m = S.get("unk POS slice", lambda: must(re.search(r"handle_user_pos\(&cols\[([0-9]+)\.\.([0-9]+)\]", b), "POS slice not recognised").groups(), ("4", "10"))
     out.append("(* POS = cols[from..to] *)\nDefinition unk_pos_from : nat := %s.\nDefinition unk_pos_to : nat := %s.\n" % (m[0], m[1]))
-    S.get("unk grouping", lambda: must(re.search(r"None\s*=>\s*\{\s*oov_list\.insert\(category_type,\s*vec!\[oov\]\);\s*\}\s*Some\(l\)\s*=>\s*\{\s*l\.push\(oov\);\s*\}", b), "templates are no longer appended to the list of their category"), None)
+    S.get("unk grouping", lambda: must(re.search(r"None\s*=>\s*\{\s*\w+\.insert\(category_type,\s*vec!\[\w+\]\);\s*\}\s*Some\(\w+\)\s*=>\s*\{\s*\w+\.push\(\w+\);\s*\}", b), "templates are no longer appended to the list of their category"), None)
     # both readers are fed from files opened in set_up, charDef first
     sb = F.fn_body(t, "set_up", REL)
     S.get("set_up", lambda: positions(sb, [
         ("read_character_property", r"MeCabOovPlugin::read_character_property\(reader\)\?"),
-        ("read_oov", r"MeCabOovPlugin::read_oov\(reader,\s*&categories,\s*grammar,\s*settings\.userPOS\)\?"),
+        ("read_oov", r"MeCabOovPlugin::read_oov\(reader,\s*&\w+,\s*grammar,\s*settings\.userPOS\)\?"),
     ], "MeCabOovPlugin::set_up"), None)
     ct = F.strip_comments(F.src("sudachi/src/dic/category_type.rs"))
     S.get("CategoryType::from_str", lambda: must(re.search(r"bitflags::parser::from_str::<CategoryType>\(s\)", F.fn_body(ct, "from_str", "category_type.rs")), "CategoryType::from_str is no longer bitflags::parser::from_str"), None)
